@@ -64,6 +64,7 @@ class Checker:
         self.opts = (H.IPv4EndpointOption(address=__import__("ipaddress").IPv4Address("10.1.2.3"),
                                           l4proto=H.L4Protocols.UDP, port=3000),
                      H.SOMEIPSDLoadBalancingOption(priority=1, weight=2))
+        self.tcp_ep = H.IPv4EndpointOption(address=__import__("ipaddress").IPv4Address("10.1.2.4"), l4proto=H.L4Protocols.TCP, port=3001)
 
     def svc(self, t, egs=frozenset()):
         return self.C.Service(t[0], t[1], t[2], t[3], eventgroups=frozenset(egs))
@@ -81,6 +82,9 @@ class Checker:
         # other eventgroups / options
         how = self.n % 5
         L = self.svc(l, egs)
+        if how in (1, 4):
+            # the matching side may itself be a complete description (endpoint options of the service); options play no part
+            L = C.Service(l[0], l[1], l[2], l[3], eventgroups=frozenset(egs), options_1=self.opts[:1])
         R = C.Service(r[0], r[1], r[2], r[3],
                       eventgroups=(frozenset(), frozenset({egid}), frozenset({egid + 1, 9}), frozenset(egs), frozenset({egid, 9}))[how],
                       options_1=self.opts[:1] if how in (2, 3) else (), options_2=self.opts[1:] if how in (3, 4) else ())
@@ -88,8 +92,10 @@ class Checker:
         ttl = (5, 0, 0xFFFFFF, 1, 3, 0)[self.n % 6]
         offer = R.create_offer_entry(ttl)
         find = R.create_find_entry(ttl)
+        sub_opts = ((), (self.tcp_ep,), (self.opts[0],))[self.n % 3]  # none / a TCP endpoint / the UDP endpoint: no part of the match
         sub = H.SOMEIPSDEntry(sd_type=H.SOMEIPSDEntryType.Subscribe, service_id=r[0], instance_id=r[1],
-                              major_version=r[2], ttl=(3, 0, 0xFFFFFF)[self.n % 3], minver_or_counter=egid | ((self.n % 4) * 5 << 16))
+                              major_version=r[2], ttl=(3, 0, 0xFFFFFF)[self.n % 3], minver_or_counter=egid | ((self.n % 4) * 5 << 16),
+                              options_1=sub_opts)
         got = dict(
             offer=L.matches_offer(offer), find=L.matches_find(find),
             service=L.matches_service(R), subscribe=L.matches_subscribe(sub),
